@@ -645,6 +645,28 @@ def run(only=None):
             ("decode_bits", lambda: T.decode(bitarray(lenc)).to01()),
             ("decode_bytes", lambda: T.decode(bitarray(lenc), as_bytes=True)),
         ], always=thorough)
+        hist.picklable_entry_points(s, {n_: getattr(T, n_) for n_ in ("encode", "decode", "interleave", "deinterleave", "bits_to_dibits", "dibits_to_bits",
+                                                                     "points_to_tribits", "tribits_to_points", "bits_to_tribits", "tribits_to_bits")})
+
+        def blk(i):
+            return format((i * 0x9E3779B97F4A7C15F39CC0605CEDC835 + 1) % (1 << 144), "0144b")
+
+        hist.many_distinct_inputs(s, [T, trellis_module], [
+            ("encode", lambda i: blk(i), lambda b: T.encode(bitarray(b)).to01()),
+            ("decode", lambda i: T.encode(bitarray(blk(i))), lambda e: T.decode(e).to01()),
+        ], always=thorough)
+        # the documented parameters given by name
+        for b in blocks[:8]:
+            case = {"block": hex(int(b, 2))}
+            try:
+                by_name = T.encode(decoded=bitarray(b))
+                if by_name.to01() != T.encode(bitarray(b)).to01() or T.encode(decoded=bitarray(b).tobytes()).to01() != by_name.to01():
+                    s.violation("encode_differs_when_the_block_is_passed_by_name", case)
+                if T.decode(encoded=by_name).to01() != b or T.decode(encoded=by_name, as_bytes=True) != bitarray(b).tobytes() or T.decode(by_name, True) != bitarray(b).tobytes():
+                    s.violation("decode_differs_when_arguments_are_passed_by_name_or_position", case)
+            except Exception as e:  # noqa: BLE001
+                s.violation("exception_arguments_by_name:" + exc_sig(e), case, repr(e))
+            s.case(nontrivial=True, calls=6, outcome="by_name")
         s.done()
 
     rep.bounds = {
